@@ -5,7 +5,7 @@
    trie walk of lookup_route; [serves]/[tmatch] the declarative reading of a
    declaration (RouterSpec.v: method equal, template matches, version in
    range). *)
-From DS Require Import Base Versions VersionsProofs Router RouterSpec RouterProofs.
+From DS Require Import Base Versions VersionsProofs Router RouterSpec RouterProofs Pct PathNorm Route RouteProofs.
 From Coq Require Import Permutation.
 
 Section C01.
@@ -67,6 +67,19 @@ Section C01.
   Theorem C01_lookup_never_panics : forall (r : node V) m segs v,
     wfn V r -> lookup V cmp r m segs v <> EPanic.
   Proof. exact (lookup_no_panic V cmp). Qed.
+
+  (* 5. end to end, from the raw request path: the endpoint found is a
+     declared one that serves the once-percent-decoded pieces between the
+     slashes of the path, and its variables are those decoded pieces; a path
+     that fails normalisation (C03) reaches no handler *)
+  Theorem C01_route_end_to_end : forall (eps : list (decl V)) r m rawpath v e vars,
+    build V cmp eps = Ok r -> version_ok V cmp eps v ->
+    (route V cmp r m rawpath v = RLookup (Found e vars) <->
+     exists t b, In (t, e) eps /\
+                 input_segments rawpath = Ok (map pct_decode (raw_segments rawpath)) /\
+                 serves V cmp (t, e) m (map pct_decode (raw_segments rawpath)) v = Some b /\
+                 vars = bm_of b).
+  Proof. exact (route_end_to_end V cmp bot TO). Qed.
 End C01.
 
 (* non-vacuity: a table with siblings, a variable chain, a wildcard and three
@@ -105,3 +118,4 @@ Print Assumptions C01_order_irrelevant_accept.
 Print Assumptions C01_order_irrelevant_lookup.
 Print Assumptions C01_trie_is_table.
 Print Assumptions C01_lookup_never_panics.
+Print Assumptions C01_route_end_to_end.
